@@ -155,11 +155,18 @@ def rule_r2(chk, p, t):
         require(len(sets) == 1 and len(adds) == 1, "expected one thrust toggle and one impulse application", ae.node)
         isin = [n for n in cfg.nodes if n.kind == "cond" and isinstance(n.ast, ast.Call) and call_name(n.ast) == "isinstance" and "ScheduledFiniteThrust" in unparse(n.ast)]
         fired = [n for n in cfg.nodes if n.kind == "cond" and "t_events[" in unparse(n.ast) and ".size > 0" in unparse(n.ast)]
-        ok = isin and fired and cfg.must_pass(sets[0].id, via_edges=[(isin[0].id, True)]) and cfg.must_pass(adds[0].id, via_edges=[(isin[0].id, False)]) and cfg.must_pass(sets[0].id, via_edges=[(fired[0].id, True)]) and cfg.must_pass(adds[0].id, via_edges=[(fired[0].id, True)])
+        # an event is applied when the integrator reported it, or when it is due (its event function is zero) at the
+        # time the integrator stopped for another event - nothing else
+        due = [n for n in cfg.nodes if n.kind == "cond" and isinstance(n.ast, ast.Compare) and isinstance(n.ast.left, ast.Call) and unparse(n.ast.left.func) == "event" and isinstance(n.ast.ops[0], ast.Eq) and unparse(n.ast.comparators[0]) in ("0.0", "0")]
+        gates = [(f.id, True) for f in fired[:1]] + [(d.id, True) for d in due]
+        ok = isin and fired and cfg.must_pass(sets[0].id, via_edges=[(isin[0].id, True)]) and cfg.must_pass(adds[0].id, via_edges=[(isin[0].id, False)]) and cfg.must_pass(sets[0].id, via_edges=gates) and cfg.must_pass(adds[0].id, via_edges=gates)
         v = sets[0].ast.value
         ok = ok and isinstance(v, ast.Call) and call_name(v) == "getStateChangeCallback" and unparse(v.func.value) == "event"
         tdef = [n for n in walk_no_nested(ae.node) if isinstance(n, ast.Assign) and unparse(n.targets[0]) == "current_time"]
-        ok = ok and tdef and unparse(tdef[0].value) == "t_events[event_index][-1]"
+        stop = inline_locals(ae, ast.parse("max(stop_times)", mode="eval").body)
+        ok = ok and tdef and all(unparse(x.value) == "t_events[event_index][-1]" or unparse(inline_locals(ae, x.value)) == unparse(stop) for x in tdef) and any(unparse(x.value) == "t_events[event_index][-1]" for x in tdef)
+        if due:
+            ok = ok and unparse(stop) == f"max([times[-1] for times in {ae.params[1]} if times.size > 0])" and all(unparse(inline_locals(ae, d.ast.left.args[0])) == unparse(stop) for d in due)
         loops = [n for n in walk_no_nested(ae.node) if isinstance(n, ast.For)]
         ok = ok and loops and unparse(loops[0].iter) == f"enumerate({ae.params[2]})"
         if ok:
